@@ -13,11 +13,13 @@ Failed(gs)  == {g[1] : g \in {x \in gs : ~x[2]}}
 \* audience list); it is an access token like any other
 Kinds == {"cookie", "cli", "storage", "code", "access", "idtoken", "access_aud"}
 BaseKind(k) == IF k = "access_aud" THEN "access" ELSE k
-Consumers == {"cookiegate", "cliverify", "clisend", "storage", "tokenendpoint", "userinfo"}
+\* cookieupgrade: the second-factor handlers re-sign the session cookie that comes with the request (here: a request
+\* authenticated by a client certificate, so nothing else has looked at the cookie)
+Consumers == {"cookiegate", "cookieupgrade", "cliverify", "clisend", "storage", "tokenendpoint", "userinfo"}
 Consumes == [c \in Consumers |->
-               CASE c = "cookiegate" -> "cookie" [] c = "cliverify" -> "cli" [] c = "clisend" -> "cli"
+               CASE c = "cookiegate" -> "cookie" [] c = "cookieupgrade" -> "cookie" [] c = "cliverify" -> "cli" [] c = "clisend" -> "cli"
                  [] c = "storage" -> "storage" [] c = "tokenendpoint" -> "code" [] c = "userinfo" -> "access"]
-NeedsIssAud == {"cookiegate", "cliverify", "clisend", "storage"}
+NeedsIssAud == {"cookiegate", "cookieupgrade", "cliverify", "clisend", "storage"}
 \* kinds that carry a not-before claim
 HasNbf == {"cookie", "cli", "storage"}
 
